@@ -3572,8 +3572,12 @@ sexp sexp_read_raw (sexp ctx, sexp in, sexp *shares) {
       break;
     case 'i': case 'I':
       res = sexp_read(ctx, in);
-      if (sexp_exact_integerp(res))
+      if (sexp_fixnump(res))
         res = sexp_make_flonum(ctx, sexp_unbox_fixnum(res));
+#if SEXP_USE_BIGNUMS
+      else if (sexp_bignump(res))
+        res = sexp_make_flonum(ctx, sexp_bignum_to_double(res));
+#endif
 #if SEXP_USE_RATIOS
       else if (sexp_ratiop(res))
         res = sexp_make_flonum(ctx, sexp_ratio_to_double(ctx, res));
